@@ -307,7 +307,10 @@ class JankStringyBytes(bytes):
     __slots__ = ()
 
     def __str__(self):
-        return self.rstrip(b"\x00").decode("utf8", errors="replace")
+        # Only strip the one terminator that packing a string adds, further
+        # trailing nulls are part of the data.
+        val = self[:-1] if self.endswith(b"\x00") else self
+        return val.decode("utf8", errors="replace")
 
     def __bool__(self):
         return not (super().__eq__(b"") or super().__eq__(b"\x00"))
